@@ -79,6 +79,7 @@ WEAK void hk_thread_exit(void) { }
 WEAK void hk_fd_created(int fd, const char *w) { (void)fd; (void)w; }
 WEAK void hk_injected(const char *c, int e) { (void)c; (void)e; }
 WEAK void hk_ext_poll(void) { }
+WEAK void hk_ext_stuck(void) { }
 WEAK void hk_epoll_ctl(int ep, int op, int fd, struct epoll_event *ev, int r, int e) { (void)ep; (void)op; (void)fd; (void)ev; (void)r; (void)e; }
 WEAK void hk_inotify_init(int fd) { (void)fd; }
 
@@ -851,10 +852,8 @@ static int try_quiesce(struct vthr *me)
 		dbg_running++;
 		return Q_NONE;
 	}
-	if (ext_pending != 0) {
+	if (ext_pending != 0)
 		hk_ext_poll();
-		return Q_NONE;
-	}
 	for (i = 0; i < n; i++) {
 		int st = thr[i].state;
 		if (st == T_FREE || st == T_BLOCKED_OTHER || st == T_EXITED)
@@ -866,8 +865,13 @@ static int try_quiesce(struct vthr *me)
 			return Q_NONE;
 		}
 	}
-	if (epoch != e1 || running != 0 || ext_pending != 0)
+	if (epoch != e1 || running != 0)
 		return Q_NONE;
+	if (ext_pending != 0) {
+		/* everything inside the process is at rest, only external actors are owed: the harness may find that one of them is done */
+		hk_ext_stuck();
+		return Q_NONE;
+	}
 
 	vt_stats.quiescences++;
 	/* every thread is blocked and nothing is in flight: whatever is still owed now is stuck until an unrelated deadline */
